@@ -71,7 +71,7 @@ def harness(eng, fam, P):
     from file_builder import FileBuilder, FileComparison
     method = P['methods'][eng.choose('method', len(P['methods']))]
     owner = OWNERS[eng.choose('owner', len(OWNERS))]
-    owner_raises = bool(eng.choose('owner_raises', 2)) if owner != 'root' else False
+    owner_raises = bool(eng.choose('owner_raises', 2))
     w = World(eng, ['x'], fixed={'in': 'D', 'in/f': 'F'}, sandbox=getattr(eng, 'sandbox', None))
     eng.path_info.update({'method': method, 'owner': owner, 'owner_raises': owner_raises, 'family': fam})
     res = {}
@@ -127,7 +127,10 @@ def harness(eng, fam, P):
                 return 'caught'
 
         def owner_thread():
-            res['build'] = FileBuilder.build(w.cache, 'n', root)
+            try:
+                res['build'] = FileBuilder.build(w.cache, 'n', root)
+            except Boom:
+                res['build'] = 'build raised (rolled back)'
             if fam == 'after-close':
                 call(holder['b'])
 
